@@ -981,7 +981,9 @@ init_cpu_blob_attr(kdump_ctx_t *ctx, unsigned cpu,
 		return set_error(ctx, KDUMP_ERR_SYSTEM,
 				 "Blob allocation failed");
 
-	attr = new_attr(ctx->dict, dir, tmpl);
+	attr = lookup_attr_child(dir, tmpl);
+	if (!attr)
+		attr = new_attr(ctx->dict, dir, tmpl);
 	if (!attr) {
 		internal_blob_decref(val.blob);
 		return set_error(ctx, status,
@@ -1195,7 +1197,9 @@ create_derived_attr(kdump_ctx_t *ctx, struct attr_data *dir,
 		dir = dir->parent;
 
 	action = "allocate";
-	attr = new_attr(ctx->dict, dir, &def->tmpl);
+	attr = lookup_attr_child(dir, &def->tmpl);
+	if (!attr)
+		attr = new_attr(ctx->dict, dir, &def->tmpl);
 	if (!attr) {
 		status = KDUMP_ERR_SYSTEM;
 		goto err;
